@@ -72,11 +72,9 @@ Proof.
   - apply all_bytes_firstn. exact B.
 Qed.
 
-Section Laws.
+Section AesLaws.
 
 Variable aesE aesD : bytes -> bytes -> bytes.
-Variable md5 : bytes -> bytes.
-Variable x25519 : bytes -> bytes -> option bytes.
 Hypothesis AES : aes_ok aesE aesD.
 
 (* ---- CBC -------------------------------------------------------------------------------------- *)
@@ -172,8 +170,15 @@ Proof.
   rewrite B1 in B2. inversion B2. reflexivity.
 Qed.
 
+End AesLaws.
+
 (* ---- validation ------------------------------------------------------------------------------------ *)
 
+Section MacLaws.
+
+Variable aesE aesD : bytes -> bytes -> bytes.
+Variable md5 : bytes -> bytes.
+Hypothesis AES : aes_ok aesE aesD.
 Hypothesis MD5 : md5_ok md5.
 
 Lemma SendMsgKey_usable keys sc p : NewSessionCrypto keys = Ok sc ->
@@ -221,7 +226,7 @@ Proof.
   apply hexMD5String_inj in Q; [|apply MD5|apply MD5].
   exists (msg_key_preimage aesE (send_sign_bytes p) sc), (msg_key_preimage aesE (send_sign_bytes p') sc).
   split; [|exact Q].
-  intro P. apply N. symmetry. revert P. apply msg_key_preimage_inj; [exact (sc_iv_block keys sc K Hiv)|exact B|exact B'].
+  intro P. apply N. symmetry. revert P. apply (msg_key_preimage_inj aesE aesD AES); [exact (sc_iv_block keys sc K Hiv)|exact B|exact B'].
 Qed.
 
 (* the covered bytes of two packets that differ only in the payload differ *)
@@ -245,8 +250,15 @@ Proof.
   apply (tamper_covered keys p p' k); try assumption. apply sign_bytes_payload; assumption.
 Qed.
 
+End MacLaws.
+
 (* ---- key agreement ------------------------------------------------------------------------------------ *)
 
+Section DhLaws.
+
+Variable md5 : bytes -> bytes.
+Variable x25519 : bytes -> bytes -> option bytes.
+Hypothesis MD5 : md5_ok md5.
 Hypothesis DH : dh_ok x25519.
 
 Lemma fit_exact n b : length b = n -> fit n b = b.
@@ -292,4 +304,4 @@ Proof.
   - unfold randomIV. rewrite map_length. unfold fit. rewrite firstn_length, app_length, repeat_length. lia.
 Qed.
 
-End Laws.
+End DhLaws.
